@@ -234,8 +234,13 @@ def c10_cases(tier):
     """every schema value maps to its own variant and back to exactly that name; anything else goes to Other"""
     sets = [["where", "A", "b_c", "match"], ["type", "Plain"], ["X"]] if tier == "quick" else \
         [["where", "A", "b_c", "match"], ["type", "Plain"], ["X"], ["async", "await", "dyn", "try", "loop"], ["in", "fn", "struct", "crate", "enum", "extern"]]
-    for vals in sets:
+    # values that differ only in letter case or in underscores are different GraphQL names: each has its own variant (naming option none;
+    # under rust naming their identifiers would coincide, which is the schema author's problem, not a case of this family)
+    twins = [["b", "B", "kb", "KB"], ["in", "not_in", "notIn", "NOT_IN", "eq"], ["a_b", "aB", "AB", "A_B", "ab"]]
+    for vals in sets + twins:
         for nz in ("none", "rust"):
+            if vals in twins and nz == "rust":
+                continue
             case = {"schema": "enum E { %s } type Query { e: E }" % " ".join(vals), "query": "query Q { e }", "options": {"mode": "cli", "normalization": nz}}
 
             def oracle(res, vals=vals, nz=nz):
@@ -340,6 +345,12 @@ def c06_cases(tier):
         ("k5 __typename only inside an inline fragment on one member", C06_SCHEMA, "query Q { pet { ... on Dog { __typename name } } }"),
         # 6 operations
         ("k6 two root fields in a subscription", C06_SUB_SCHEMA, "subscription S { a b }"),
+        ("k6 a root field and a fragment spread in a subscription", C06_SUB_SCHEMA, "fragment F on Sub { b } subscription S { a ...F }"),
+        ("k6 a root field and an inline fragment in a subscription", C06_SUB_SCHEMA, "subscription S { a ... on Sub { b } }"),
+        ("k6 two fragment spreads in a subscription", C06_SUB_SCHEMA, "fragment A on Sub { a } fragment B on Sub { b } subscription S { ...A ...B }"),
+        ("k6 two root fields of a subscription inside one fragment", C06_SUB_SCHEMA, "fragment F on Sub { a b } subscription S { ...F }"),
+        ("k6 two root fields of a subscription inside one inline fragment", C06_SUB_SCHEMA, "subscription S { ... on Sub { a b } }"),
+        ("k6 two root fields of a subscription through nested fragments", C06_SUB_SCHEMA, "fragment G on Sub { b } fragment F on Sub { a ...G } subscription S { ...F }"),
         ("k7 anonymous selection set", C06_SCHEMA, "{ n }"),
         ("k7 anonymous query", C06_SCHEMA, "query { n }"),
         ("k8 mutation without a mutation root", C06_SCHEMA, "mutation M { n }"),
@@ -499,6 +510,23 @@ def c05_cases(tier):
                 return "derive form: the struct name `%s` matches no operation (names are case-sensitive) but code was generated" % sel
             return None
         yield case, oracle_derive
+    # a document with an operation that has NO name: whatever is generated, every operationName sent must be a name the document defines
+    schema4 = "type Query { a(m: String): Int c: Int } type Mutation { d: Int } schema { query: Query mutation: Mutation }"
+    for doc4 in ("query ($m: String) { a(m: $m) }", "{ c }", "query Named { c }\nquery ($m: String) { a(m: $m) }", "mutation { d }\nquery Named { c }"):
+        for opts4 in ({"mode": "cli", "operation_name": "Greeting"}, {"mode": "derive", "struct_name": "Greeting", "operation_name": "Greeting"},
+                      {"mode": "cli", "operation_name": "Named"}, {"mode": "cli"}):
+            case = {"schema": schema4, "query": doc4, "options": opts4}
+
+            def oracle_anon(res, doc4=doc4, opts4=opts4):
+                if res["exit"] != 0 or not res["out"] or not res["out"].get("ok"):
+                    return None      # refusing a document with an unnamed operation is a permitted outcome
+                toks = res["out"]["tokens"]
+                defined = re.findall(r"(?:query|mutation|subscription)\s+([A-Za-z_][A-Za-z0-9_]*)", doc4)
+                for nm in re.findall(r'OPERATION_NAME\s*:\s*&\s*(?:\'static\s*)?str\s*=\s*"([^"]*)"', toks):
+                    if nm not in defined:
+                        return "operationName %r is sent with a document that defines no operation of that name (`%s`, options %s)" % (nm, doc4.replace("\n", " / "), opts4)
+                return None
+            yield case, oracle_anon
     # the document read from a FILE (the derive / CLI path): the query text is the file's text, byte for byte
     d = os.path.join(WORK, "replay-files")
     os.makedirs(d, exist_ok=True)
@@ -809,6 +837,42 @@ def c02_cases(tier):
                         return "module %s mentions %s without defining or importing it (operation `%s`, custom scalars module %s)" % (mname, missing, q[:60], mod)
                 return None
             yield case, oracle
+    for x in c02_keyword_cases(tier):
+        yield x
+
+
+RUST_KEYWORDS = ("as break const continue crate else enum extern false fn for if impl in let loop match mod move mut pub ref return self Self static struct "
+                 "super trait true type unsafe use where while async await dyn abstract become box do final macro override priv typeof unsized virtual yield try").split()
+
+
+def c02_keyword_cases(tier):
+    """every Rust keyword (strict, reserved, 2018+, `gen`) as a field name, an alias, a variable name and an input-object field name: the
+    generated members must be identifiers, i.e. none of them may be a bare keyword (`pub ref: ..` does not parse)"""
+    kws = [k for k in RUST_KEYWORDS if k not in ("true", "false")]    # `true` / `false` are not GraphQL names for fields? they are: kept out only because graphql-parser reads them as booleans in value position
+    fields = " ".join("%s: Int" % k for k in kws)
+    schema = "type K { %s plain: Int } input KI { %s } type Query { k(i: KI): K }" % (fields, fields)
+    half = len(kws) // 2
+    docs = [
+        "query Q { k { %s } }" % " ".join(kws),
+        "query Q { k { %s } }" % " ".join("%s: plain" % k for k in kws),
+        "query Q(%s) { k { plain } }" % ", ".join("$%s: Int" % k for k in kws[:half]),
+        "query Q(%s) { k { plain } }" % ", ".join("$%s: Int" % k for k in kws[half:]),
+        "query Q($i: KI) { k(i: $i) { plain } }",
+    ]
+    for q in docs:
+        for nz in ("none", "rust"):
+            case = {"schema": schema, "query": q, "options": {"mode": "cli", "normalization": nz}}
+
+            def oracle(res, q=q, nz=nz):
+                if res["exit"] != 0 or not res["out"] or not res["out"].get("ok"):
+                    return "generation failed for names that are Rust keywords (normalization %s): %s" % (nz, q[:80])
+                t = norm(res["out"]["tokens"])
+                for st, fs in _structs(t).items():
+                    for f in fs:
+                        if f in RUST_KEYWORDS:
+                            return "member `%s` of %s is a bare Rust keyword: the module is not valid Rust (`%s`, normalization %s)" % (f, st, q[:60], nz)
+                return None
+            yield case, oracle
 
 
 C01_SCHEMA = ("interface Named { name: String } type Dog implements Named { name: String isGoodDog: Boolean age: Int owner: Person } "
@@ -950,6 +1014,34 @@ def c08_cases(tier):
                 return "a call issued after a call on a different file with the same base name differs from the same call in a fresh process"
             return None
         yield {"calls": hist}, oracle2
+    # two DIFFERENT schemas in one process, in both orders: every arena index (input #0, enum #0, scalar #5, object #0, fragment #0 ..)
+    # names a different thing in the two schemas - recursive vs flat input, different enum values, different custom scalars, an
+    # interface vs a union at the same field - so anything remembered per index / per name from the first call shows in the second
+    twins = []
+    for sub, (sch, qry) in (("c08_tree", ("scalar Stamp enum Color { RED GREEN } input Node { value: Int child: Node tags: [Node!] } interface Thing { id: ID } type A implements Thing { id: ID c: Color at: Stamp } "
+                                          "type Query { grow(n: Node, c: Color): Thing }",
+                                          "fragment F on Thing { __typename id } query Q($n: Node, $c: Color) { grow(n: $n, c: $c) { ...F ... on A { c at } } }")),
+                            ("c08_flat", ("scalar Money enum Size { S M L } input Node { value: Int } input Paging { first: Int after: String node: Node more: [Paging!] } type A { id: ID s: Size cost: Money } type B { n: Int } union Thing = A | B "
+                                          "type Query { grow(n: Node, c: Size, p: Paging): Thing }",
+                                          "fragment F on Thing { __typename ... on B { n } } query Q($n: Node, $c: Size, $p: Paging) { grow(n: $n, c: $c, p: $p) { ...F ... on A { s cost } } }"))):
+        os.makedirs(os.path.join(d, sub), exist_ok=True)
+        open(os.path.join(d, sub, "schema.graphql"), "w").write(sch)
+        open(os.path.join(d, sub, "query.graphql"), "w").write(qry)
+        twins.append({"schema_path": os.path.join(d, sub, "schema.graphql"), "query_path": os.path.join(d, sub, "query.graphql"), "options": {"mode": "cli"}})
+    for hist in ([twins[0], twins[1]], [twins[1], twins[0]], [twins[0], twins[1], twins[0]]):
+        def oracle_tw(res, hist=hist):
+            if res["exit"] != 0 or not res["out"]:
+                return "process died: %s" % res["stderr"]
+            for k in range(1, len(hist)):
+                later = res["out"]["results"][k]
+                alone = run_case({"calls": [hist[k]]})
+                if not alone["out"] or not alone["out"]["results"][0].get("ok"):
+                    return "generation failed for a valid input in a fresh process: %s" % (alone["stderr"] or alone["out"])
+                if not later.get("ok") or later.get("tokens") != alone["out"]["results"][0].get("tokens"):
+                    return "call %d of a process that handled a different schema before gives other code than the same call in a fresh process (%s after %s)" % (
+                        k + 1, os.path.basename(os.path.dirname(hist[k]["schema_path"])), os.path.basename(os.path.dirname(hist[k - 1]["schema_path"])))
+            return None
+        yield {"calls": hist}, oracle_tw
     # the same call in two fresh processes
     def oracle3(res):
         if res["exit"] != 0 or not res["out"]:
